@@ -488,3 +488,28 @@ Proof.
     apply andb_prop in H1 as [Hn Hl]. apply Nat.eqb_eq in Hn. apply N.eqb_eq in Hl. subst.
     f_equal. apply IH; [lia|exact H2].
 Qed.
+
+(* validate_shapes_similar after fix f29e87d: the running checked_add of the chained lengths
+   succeeds for every later source exactly when the total fits usize *)
+Lemma similar_loop_spec along (s0 : shape) : forall rest t,
+  similar_loop along s0 t rest = true <->
+  forallb (fun s => similar_from 0 along s s0) rest = true /\
+  (rest = [] \/ t + sum (map (fun s => len_at s along) rest) <= usize_max).
+Proof.
+  induction rest as [|s r IH]; intros t; cbn [similar_loop forallb map].
+  - split; [intros _; split; [reflexivity|left; reflexivity]|reflexivity].
+  - unfold checked_add. change (sum (len_at s along :: map (fun s1 => len_at s1 along) r))
+      with (len_at s along + sum (map (fun s1 => len_at s1 along) r)).
+    destruct (N.leb_spec (t + len_at s along) usize_max) as [Hle|Hgt].
+    + rewrite !andb_true_iff, IH. split.
+      * intros [A [B C]]. split; [split; assumption|]. right. destruct C as [->|C]; cbn [map sum fold_right]; lia.
+      * intros [[A B] [C|C]]; [discriminate|]. split; [exact A|]. split; [exact B|].
+        destruct r; [left; reflexivity|right; lia].
+    + split; [discriminate|]. intros [_ [C|C]]; [discriminate|lia].
+Qed.
+
+Lemma shapes_similar_checked_spec (s0 : shape) rest along :
+  shapes_similar_checked (s0 :: rest) along = true <->
+  shapes_similar (s0 :: rest) along = true /\
+  (rest = [] \/ sum (map (fun s => len_at s along) (s0 :: rest)) <= usize_max).
+Proof. cbn [shapes_similar_checked shapes_similar map sum fold_right]. apply similar_loop_spec. Qed.
